@@ -5,6 +5,7 @@ import (
 	"context"
 	"crypto"
 	"crypto/ecdsa"
+	"crypto/ed25519"
 	"crypto/elliptic"
 	"crypto/rand"
 	"crypto/rsa"
@@ -182,6 +183,35 @@ func setupPKI() error {
 		ts.redirectTo = 1
 		servers = append(servers, ts)
 	}
+	// 8: a leaf followed by a certificate whose key Go cannot hash (its
+	// SubjectPublicKeyInfo names an algorithm crypto/x509 does not know: an
+	// Ed25519 certificate relabelled Ed448).  Only the leaf counts as presented
+	// (the second key has no fingerprint anybody could configure); a pin that
+	// matches nothing must still be refused, whatever the verifier makes of
+	// the certificate it cannot hash.
+	{
+		k := genKey("p256")
+		c, d := makeCert("leaf-before-unhashable", k, nil, nil, false)
+		_, epriv, _ := ed25519.GenerateKey(rand.Reader)
+		_, ed := makeCert("unhashable", epriv, nil, nil, false)
+		oid := []byte{0x06, 0x03, 0x2b, 0x65, 0x70}
+		first := bytes.Index(ed, oid)
+		second := -1
+		if first >= 0 {
+			if j := bytes.Index(ed[first+len(oid):], oid); j >= 0 {
+				second = first + len(oid) + j
+			}
+		}
+		if second < 0 {
+			panic("cannot relabel the Ed25519 certificate")
+		}
+		ed = bytes.Clone(ed)
+		ed[second+4] = 0x71 // 1.3.101.113, Ed448
+		if pc, err := x509.ParseCertificate(ed); err != nil || pc.PublicKey != nil {
+			panic(fmt.Sprintf("relabelled certificate: err=%v key=%T", err, pc.PublicKey))
+		}
+		servers = append(servers, startServer("leaf-then-unhashable-cert", [][]byte{d, ed}, k, []*x509.Certificate{c}, false))
+	}
 	return nil
 }
 
@@ -229,6 +259,11 @@ func spell(c Call) (fp string, expect string) {
 		return "sha256//" + good, verdict(raw)
 	case "zero":
 		return base64.StdEncoding.EncodeToString(make([]byte, 32)), "nomatch"
+	case "emptyhash":
+		// what a failed "openssl ... | openssl dgst -sha256 -binary | base64"
+		// pipeline prints: the hash of no input at all
+		h := sha256.Sum256(nil)
+		return "sha256//" + base64.StdEncoding.EncodeToString(h[:]), "nomatch"
 	case "bitflip":
 		b := bytes.Clone(raw)
 		b[c.Pos%32] ^= 1 << (c.Pos % 8)
@@ -440,7 +475,7 @@ func runC13(c C13Case) (key, what string) {
 	return "", ""
 }
 
-var spellings = []string{"plain", "prefixed", "zero", "bitflip", "lastbyte", "first16", "trunc31", "ext33", "nopad", "extrapad", "urlsafe", "garbage", "hex", "prefix-only", "double-prefix", "none", "none", "plain", "prefixed"}
+var spellings = []string{"plain", "prefixed", "zero", "emptyhash", "bitflip", "lastbyte", "first16", "trunc31", "ext33", "nopad", "extrapad", "urlsafe", "garbage", "hex", "prefix-only", "double-prefix", "none", "none", "plain", "prefixed"}
 
 func genC13() *rapid.Generator[C13Case] {
 	return rapid.Custom(func(t *rapid.T) C13Case {
